@@ -63,11 +63,13 @@ func (r *SecureRealm[A, Pub]) Drop(s *SecureSwarm[A, Pub]) {
 		panic("drop called with Swarm from a different Realm")
 	}
 	r.mu.Lock()
-	defer r.mu.Unlock()
 	s2, exists := r.swarms[s.local]
+	r.mu.Unlock()
 	if !exists || s2 != s {
 		panic("swarm is already closed")
 	}
+	// The realm lock must not be held here: closing the queue waits for receive callbacks
+	// that are in progress, and a callback may itself Tell through this realm.
 	s.tells.Close()
 	s.asks.Close()
 }
